@@ -986,6 +986,7 @@ func (c *Ctx) tailRepairer(R *ssa.Function) bool {
 // ------------------------------------------------------------------ WR4
 
 func ruleWR4(c *Ctx) {
+	probed := map[*ssa.Function]bool{}
 	sites := c.appendSites()
 	if len(sites) == 0 {
 		c.bad("<module>", "append-primitive", "-", "no O_APPEND open of the log found")
@@ -1046,6 +1047,12 @@ func ruleWR4(c *Ctx) {
 				}
 				if mustPassEdges(f, site.Block(), nilErrEdges(f, cv)) {
 					repaired = true
+					for _, pc := range callsIn(cal) {
+						if p := calleeOf(pc.Common()); p != nil && c.InModule(p) && c.readsTailOfParam0(p) && !probed[p] {
+							probed[p] = true
+							c.probeVerdict(p)
+						}
+					}
 				}
 			}
 			if repaired {
@@ -1086,6 +1093,10 @@ func ruleWR4(c *Ctx) {
 			}
 		}
 		c.check(rew, fn, construct+"|torn-tail-rewritten", pos, "unterminated tail leads to the atomic rewrite", "unterminated-tail edge does not reach a rewrite of the log")
+		if p := calleeOf(&insp.Call); p != nil && !probed[p] {
+			probed[p] = true
+			c.probeVerdict(p)
+		}
 	}
 }
 
